@@ -239,8 +239,36 @@ fn c01_k4_finalize_uses_file_len() {
     let r = u.finalize(file_len);
     vk::cover!(r.is_ok());
     vk::cover!(r.is_err());
-    if let Ok((h, _clean)) = r {
+    if let Ok((h, _kept_primary, _layout_matched)) = r {
         assert!(h.layout().len() == file_len);
+    }
+}
+
+// C11-K4: the two causes of "something was reconciled" are reported apart: with recovery required, the layout flag says exactly
+// whether the stored region counts already were the ones rebuilt from the file length.  One region geometry (the division by the
+// region size is then by a constant), every stored count, every file length.
+#[cfg_attr(kani, kani::proof)]
+#[cfg_attr(kani, kani::stub(alloc::fmt::format, stub_format))]
+#[cfg_attr(kani, kani::stub(crate::tree_store::page_store::page_manager::xxh3_checksum, stub_xxh3))]
+#[cfg_attr(kani, kani::unwind(130))]
+#[cfg_attr(verif_replay, test)]
+fn c11_k4_finalize_flags() {
+    let mut inner = any_db_header();
+    inner.recovery_required = true;
+    inner.two_phase_commit = true;
+    inner.page_size = 4096;
+    inner.region_max_data_pages = 1024;
+    inner.region_header_pages = 1;
+    let stored_full = inner.full_regions;
+    let stored_trailing = inner.trailing_partial_region_pages;
+    let u = UnrepairedDatabaseHeader { inner, primary_corrupted: false, secondary_corrupted: vk::any() };
+    let file_len: u64 = vk::any();
+    let r = u.finalize(file_len);
+    if let Ok((h, kept_primary, layout_matched)) = r {
+        assert!(kept_primary);
+        assert!(layout_matched == (h.full_regions == stored_full && h.trailing_partial_region_pages == stored_trailing));
+        vk::cover!(layout_matched);
+        vk::cover!(!layout_matched);
     }
 }
 
@@ -266,10 +294,11 @@ fn c01_k4b_finalize_rejects_truncation() {
     let r = u.finalize(file_len);
     vk::cover!(r.is_ok());
     match r {
-        Ok((h, clean)) => {
+        Ok((h, kept_primary, layout_matched)) => {
             assert!(file_len >= stored);
             assert!(h.layout().len() == file_len);
-            if clean { assert!(file_len == stored); }
+            assert!(kept_primary);
+            assert!(layout_matched == (file_len == stored));
         }
         Err(_) => {}
     }
